@@ -2,10 +2,16 @@
 import json, os, glob
 
 _D = os.path.join(os.path.dirname(os.path.abspath(__file__)), "props.d")
+try:
+    READY = set(open(os.path.join(_D, "READY")).read().split())
+except OSError:
+    READY = set()
 PROPS = {}
 MANIFEST_TEXT = {}
 for _f in sorted(glob.glob(os.path.join(_D, "C*.json"))):
     _pid = os.path.basename(_f)[:-5]
     _j = json.load(open(_f))
     PROPS[_pid] = _j.get("props", {})
-    MANIFEST_TEXT[_pid] = _j["manifest"]
+    # a property is claimed in MANIFEST.json only once it is listed in props.d/READY (reviewed and committed)
+    if _pid in READY:
+        MANIFEST_TEXT[_pid] = _j["manifest"]
